@@ -15,8 +15,8 @@ property checks inside the mode-C loops.
 """
 import random
 from explore import Job, run_jobs, generic_search, replay_with_monitor
-from csrlib import (Reg, Field, BankInst, SramInst, ArrayInst, SocArrayInst, STORAGE, STATUS, RAW, build_reg, spec_of,
-                    lean_regs, bus_write, build_guarded, InstanceError)
+from csrlib import (Reg, Field, BankInst, SramInst, ArrayInst, SocArrayInst, SocGlueInst, STORAGE, STATUS, RAW, build_reg,
+                    spec_of, lean_regs, bus_write, build_guarded, InstanceError, ref_sort, ref_page_bits)
 
 FMT = "adr, re, we, dat_w [per master], then (dev_we_k, dev_dat_k) per register; SRAM: adr, re, we, dat_w, page"
 FINDING_ATOMIC_LITTLE = "C12-atomic-little-ordering"
@@ -131,6 +131,41 @@ def jobs(tier, seed=0):
     BA(ArrayInst, "arrayB/32/little/autocsr+fixed-n",
        [("p", [S(65, atomic=True), T(33, n=3), S(32, reset=0xFFFFFFFF), R(32)], [(64, 6, False, [2 ** 64 - 1, 5])])],
        {"p": 3}, {("p", 0): 0}, bw=32, ordering="little", paging=0x100, aw=12, nmasters=2, style="autocsr", child=1)
+    # ---- the CSR bus glue (Interface / like / Interconnect / InterconnectShared / SoC.do_finalize) with every
+    # supported address width and paging: banks at locations 0, 1, 2^k-1, 2^k, 2^k+1 (k = the bank-select bits that lie
+    # above address bit 13) and the last location, reached THROUGH the glue.  Small real SoCs (B) ...
+    for (aw, paging, bw, ordering, nm_, marks) in (
+            (15, 0x800, 8, "big", 1, (31, 32, 33)), (16, 0x400, 32, "big", 2, (63, 64, 65, 129)),
+            (18, 0x1000, 8, "little", 1, (15, 16, 17, 128)), (14, 0x800, 32, "big", 1, (30,)),
+            (17, 0x400, 8, "big", 1, (64, 255, 256, 257))):
+        n_locs = (4 << aw) // paging
+        locs = list(marks) + [n_locs - 1]
+        memloc = next(x for x in range(n_locs - 2, 0, -1) if x not in locs)
+        per = [("p%d" % l, l, [S(3, reset=l & 7), T(bw + 1)] if i % 2 == 0 else [S(bw + 1, atomic=(i % 4 == 1)), R(min(bw, 8))],
+                [(8, (paging // 4) + 5, [l & 0xFF, 7], memloc)] if i == 1 else [])
+               for i, l in enumerate(locs)]
+        BA(SocGlueInst, "socglueB/aw%d/paging%#x/%d/%s/%dmasters" % (aw, paging, bw, ordering, nm_), bw=bw, paging=paging,
+           ordering=ordering, aw=aw, periphs=per, nmasters=nm_)
+    # ... and tiny arrays behind the real interconnects, exhaustively (A): one-bit registers in banks at the marked
+    # locations; InterconnectShared with one master (what a SoC builds), with two masters, and plain Interconnect
+    for (aw, paging, bw, marks, kw) in (
+            (15, 0x800, 8, (0, 1, 31, 32, 33, 63), dict(shared=True)),
+            (16, 0x400, 8, (1, 64, 65, 193, 255), dict(shared=True, nmasters=2)),
+            (18, 0x1000, 32, (0, 17, 144, 255), dict(shared=False)),
+            (17, 0x800, 8, (3, 131, 255), dict(shared=True))):
+        per = [("b%02d" % i, [S(1)] if i % 3 != 1 else [T(1)], []) for i, l in enumerate(marks)]
+        A(ArrayInst, "glueA/aw%d/paging%#x/%d/%s" % (aw, paging, bw, "+".join("%s=%s" % kv for kv in sorted(kw.items()))),
+          per, {"b%02d" % i: l for i, l in enumerate(marks)}, {}, bw=bw, ordering="big", paging=paging, aw=aw,
+          via_scan=True, data_values=(0xA5,), **kw)
+    # registers AND a (paged) memory in one object, through the model's `scan`
+    A(ArrayInst, "glueA/aw7/regs+paged-mem/via-scan", [("a", [S(1), T(1)], [(8, 4, False, None)]), ("m", [], [(8, 2, False, [3])])],
+      {"a": 33}, {("a", 0): 32, ("m", 0): 63}, bw=8, ordering="big", paging=8, aw=7, shared=True, via_scan=True,
+      data_values=(0xA5,))
+    BA(ArrayInst, "glueB/aw17/autocsr/regs+paged-mem/via-scan",
+       [("p", [S(9), T(3, n=5), S(17, atomic=True, n=0), R(8)], [(16, 300, False, [0xBEEF]), (8, 3, False, None)]),
+        ("q", [], [(32, 70, False, None)]), ("r", [S(1, wfd=True)], [])],
+       {"p": 127, "r": 128}, {("p", 0): 64, ("p", 1): 255, ("q", 0): 1}, bw=8, ordering="big", paging=0x800, aw=17,
+       shared=True, via_scan=True, style="autocsr", child=1)
     # ---- A
     for ordering in ("big", "little"):
         for nm, regs in bank_sets_8():
@@ -462,6 +497,382 @@ def correspond_layout(ctx, out, n_cases):
     ctx.cov.add_cases("GenericBank simple-CSR layout / addrOf", n_cases, n_ok)
 
 
+def correspond_glue(ctx, out):
+    """Python-level ties of the glue model: `Interface.like` (both widths), `Interface(...)` port widths,
+    `SoCCSRHandler.n_locs` for every supported address width / paging / data width."""
+    from litex.soc.interconnect import csr_bus
+    cases = [(aw, dw) for aw in list(range(1, 21)) + [32] for dw in (8, 16, 32, 64)]
+    ans = ctx.lean.call_batch(["like %d %d" % c for c in cases])
+    for (aw, dw), a in zip(cases, ans):
+        src = csr_bus.Interface(data_width=dw, address_width=aw)
+        cp = csr_bus.Interface.like(src)
+        got = (len(src.adr), len(src.dat_w), len(src.dat_r), len(cp.adr), len(cp.dat_w), len(cp.dat_r))
+        if got != (aw, dw, dw, aw, dw, dw):
+            out.append({"kind": "monitor:Interface(data_width=%d, address_width=%d) / Interface.like of it have adr/dat_w/dat_r widths %r "
+                                "(an interface narrower than the address space truncates the bank-select bits)" % (dw, aw, got),
+                        "instance": "csr_bus.Interface.like", "address_width": aw, "data_width": dw})
+        real = "%d %d" % (len(cp.adr), len(cp.dat_w))
+        if a.strip() != real:
+            out.append({"kind": "correspondence", "instance": "csr_bus.Interface.like", "address_width": aw, "data_width": dw,
+                        "real": real, "model": a})
+    ctx.cov.add_cases("Interface / Interface.like widths (aw 1..20,32 x dw 8..64)", len(cases), len(cases), exhaustive=True)
+    import logging
+    from litex.soc.integration.soc import SoCCSRHandler
+    grid = [(dw, aw, pg) for dw in (8, 32) for aw in (14, 15, 16, 17, 18) for pg in (0x400, 0x800, 0x1000, 0x2000, 0x4000)]
+    ans = ctx.lean.call_batch(["nlocs 32 %d %d" % (aw, pg) for (dw, aw, pg) in grid])
+    lvl = logging.getLogger().level
+    for (dw, aw, pg), a in zip(grid, ans):
+        h = SoCCSRHandler(data_width=dw, address_width=aw, paging=pg)
+        if h.n_locs * (pg // 4) != (1 << aw):
+            out.append({"kind": "monitor:SoCCSRHandler(address_width=%d, paging=%#x).n_locs = %d: the locations do not tile the %d-bit "
+                                "word address space" % (aw, pg, h.n_locs, aw), "instance": "SoCCSRHandler.n_locs",
+                        "address_width": aw, "paging": pg})
+        if a.strip() != str(h.n_locs):
+            out.append({"kind": "correspondence", "instance": "SoCCSRHandler.n_locs", "address_width": aw, "paging": pg,
+                        "real": h.n_locs, "model": a})
+    ctx.cov.add_cases("SoCCSRHandler.n_locs (all supported widths/pagings)", len(grid), len(grid), exhaustive=True)
+
+
+def _scan_case(rng):
+    """A random source for `CSRBankArray`: objects with registers and/or memories and/or constants."""
+    bw = rng.choice((8, 8, 32))
+    paging = rng.choice((0x20, 0x100, 0x800))
+    pw = paging // 4
+    locs = rng.sample(range(0, 64), 24)
+    objs = []
+    for oi in range(rng.randint(1, 4)):
+        style = rng.choice(("plain", "autocsr"))
+        regs = random_regs(rng, bw, rng.choice((0, 0, 1, 2, 3)))
+        mems = []
+        for _ in range(rng.choice((0, 0, 1, 1, 2))):
+            w = rng.choice((8, bw, 2 * bw))
+            d = rng.choice((2, 3, max(2, pw // 2), pw, pw + 1, 3 * pw))
+            mems.append((w, d, style == "plain" and rng.random() < 0.3, locs.pop(), [rng.getrandbits(w) for _ in range(rng.choice((0, 2)))]))
+        consts = [rng.randrange(1, 1000) for _ in range(rng.choice((0, 0, 1, 2)))]
+        objs.append({"style": style, "regs": regs, "mems": mems, "consts": consts, "loc": locs.pop()})
+    return {"bw": bw, "paging": paging, "ordering": rng.choice(("big", "little")), "objs": objs}
+
+
+def _real_scan(case):
+    """Build the real `CSRBankArray` for a case; returns (canonical structure string, property message or None)."""
+    from migen import Module, Memory
+    from litex.soc.interconnect import csr, csr_bus
+    bw, paging = case["bw"], case["paging"]
+
+    class Src:
+        pass
+
+    class Plain:
+        def __init__(self):
+            self.c, self.m, self.k = [], [], []
+
+        def get_csrs(self):
+            return list(self.c)
+
+        def get_memories(self):
+            return list(self.m)
+
+        def get_constants(self):
+            return list(self.k)
+
+    class Auto(Module, csr.AutoCSR):
+        pass
+    src = Src()
+    reg_objs, mem_objs, loc_of = [], [], {}
+    for oi, o in enumerate(case["objs"]):
+        name = "o%d" % oi
+        obj = Plain() if o["style"] == "plain" else Auto()
+        ro = []
+        for k, r in enumerate(o["regs"]):
+            c = build_reg(r, "%s_r%d" % (name, k))
+            if o["style"] == "plain":
+                obj.c.append(c)
+            else:
+                setattr(obj, "r%d" % k, c)
+            ro.append(c)
+        mo = []
+        for mi, (w, d, rd_only, mloc, init) in enumerate(o["mems"]):
+            m = Memory(w, d, init=init or None, name="%s_m%d" % (name, mi))
+            if o["style"] == "plain":
+                obj.m.append((True, m) if rd_only else m)
+            else:
+                setattr(obj, "m%d" % mi, m)
+            loc_of[id(m)] = mloc
+            mo.append(m)
+        for ki, v in enumerate(o["consts"]):
+            c = csr.CSRConstant(v, name="%s_k%d" % (name, ki))
+            if o["style"] == "plain":
+                obj.k.append(c)
+            else:
+                setattr(obj, "k%d" % ki, c)
+        setattr(src, name, obj)
+        reg_objs.append(ro)
+        mem_objs.append(mo)
+        loc_of[name] = o["loc"]
+
+    def address_map(nm, memory):
+        return loc_of[nm] if memory is None else loc_of[id(memory)]
+    arr = csr_bus.CSRBankArray(src, address_map, data_width=bw, paging=paging, ordering=case["ordering"])
+    kn = lambda c: 0 if isinstance(c, csr.CSRStorage) else 1 if isinstance(c, csr.CSRStatus) else 2
+    btoks = [len(arr.banks)]
+    for (nm, csrs, mapaddr, rmap) in arr.banks:
+        btoks += [mapaddr, len(csrs)] + [x for c in csrs for x in (kn(c), c.size)]
+    stoks = [len(arr.srams)]
+    for (nm, memory, mapaddr, mmap) in arr.srams:
+        pgb = mmap._page.size if mmap._page is not None else 0
+        link = [0, 0, 0]
+        if mmap._page is not None:
+            for bi, (bn, csrs, _, _) in enumerate(arr.banks):
+                for ri, c in enumerate(csrs):
+                    if c is mmap._page:
+                        link = [1, bi, ri]
+        stoks += [mapaddr, pgb] + link
+    ctoks = [x for (nm, c) in arr.constants for x in (int(nm[1:]), c.constant)]
+    real = " ".join(map(str, btoks)) + " | " + " ".join(map(str, stoks)) + " | " + " ".join(map(str, ctoks))
+    # ---- the property, checked directly: every register of an object is in the bank of that object, at its index, at
+    # the object's location; a memory spanning more than one page has a page register of the right size in that bank
+    msg = None
+    bank_of = {nm: (csrs, mapaddr) for (nm, csrs, mapaddr, rmap) in arr.banks}
+    for oi, o in enumerate(case["objs"]):
+        name = "o%d" % oi
+        csrs, mapaddr = bank_of.get(name, ([], None))
+        for k, c in enumerate(reg_objs[oi]):
+            if not (k < len(csrs) and csrs[k] is c):
+                msg = msg or "register %d of object %s (which also has %d memories) is not register %d of the object's bank: the bank holds %r" % (
+                    k, name, len(o["mems"]), k, [x.name for x in csrs])
+        if reg_objs[oi] and mapaddr != o["loc"]:
+            msg = msg or "bank of object %s sits at location %r, address_map said %d" % (name, mapaddr, o["loc"])
+        for mi, (w, d, rd_only, mloc, init) in enumerate(o["mems"]):
+            pb = ref_page_bits(w, d, bw, paging)
+            mm = next((mmap for (nm, memory, ma, mmap) in arr.srams if memory is mem_objs[oi][mi]), None)
+            if mm is None:
+                msg = msg or "memory %d of object %s got no window" % (mi, name)
+            elif pb and (mm._page is None or mm._page.size != pb or not any(c is mm._page for c in csrs)):
+                msg = msg or "memory %d of object %s spans %d pages but its %d-bit page register is not in the object's bank" % (mi, name, 1 << pb, pb)
+        exp_consts = list(o["consts"])
+        got_consts = [c.constant for (nm, c) in arr.constants if nm == name]
+        if sorted(got_consts) != sorted(exp_consts):
+            msg = msg or "constants of object %s: collected %r, declared %r" % (name, got_consts, exp_consts)
+    return real, msg
+
+
+def _scan_lean_line(case):
+    bw, paging = case["bw"], case["paging"]
+    pbits = (paging // 4 - 1).bit_length()
+    toks = [bw, 0 if case["ordering"] == "big" else 1, pbits, len(case["objs"])]
+    for o in case["objs"]:
+        toks.append("%d %s" % (o["loc"], lean_regs(o["regs"])))
+        toks.append(len(o["mems"]))
+        for (w, d, rd_only, mloc, init) in o["mems"]:
+            toks.append("%d %d %d %d %d %s" % (w, d, int(rd_only), mloc, len(init), " ".join(map(str, init))))
+        toks.append("%d %s" % (len(o["consts"]), " ".join(map(str, o["consts"]))))
+    return "scan " + " ".join(map(str, toks))
+
+
+def correspond_scan(ctx, out, n_cases):
+    """`CSRBankArray.scan` on random sources (objects with registers and/or memories and/or constants, plain and AutoCSR)
+    against the model's `scan`, with the direct property check (no register dropped or displaced)."""
+    import io, contextlib
+    rng = ctx.rng
+    cases = [_scan_case(rng) for _ in range(n_cases)]
+    # directed: registers + small memory; registers + paged memory; memory only; paged memory only
+    for mems in ([(8, 3, False, 40, [])], [(8, 100, False, 40, [])], [(8, 3, False, 40, []), (16, 100, False, 41, [5, 6])]):
+        for regs in ([S(9), T(3)], []):
+            for style in ("plain", "autocsr"):
+                cases.append({"bw": 8, "paging": 0x20, "ordering": "big",
+                              "objs": [{"style": style, "regs": list(regs), "mems": list(mems), "consts": [11], "loc": 5},
+                                       {"style": "plain", "regs": [R(8)], "mems": [], "consts": [], "loc": 6}]})
+    ans = ctx.lean.call_batch([_scan_lean_line(c) for c in cases])
+    nontriv = 0
+    for c, a in zip(cases, ans):
+        with contextlib.redirect_stdout(io.StringIO()):
+            real, msg = _real_scan(c)
+        if msg:
+            out.append({"kind": "monitor:" + msg, "instance": "CSRBankArray.scan", "case": _case_json(c)})
+        if any(o["regs"] and o["mems"] for o in c["objs"]):
+            nontriv += 1
+        if " ".join(a.split()) != " ".join(real.split()):
+            out.append({"kind": "correspondence", "instance": "CSRBankArray.scan", "case": _case_json(c), "real": real, "model": a})
+    ctx.cov.add_cases("CSRBankArray.scan: banks / page links / constants (random + directed sources)", len(cases), nontriv)
+
+
+def _case_json(c):
+    return {"bw": c["bw"], "paging": c["paging"], "ordering": c["ordering"],
+            "objs": [{"style": o["style"], "loc": o["loc"], "consts": o["consts"], "mems": [list(m) for m in o["mems"]],
+                      "regs": [{"kind": r.kind, "size": r.size, "reset": r.reset, "atomic": r.atomic, "wfd": r.wfd} for r in o["regs"]]}
+                     for o in c["objs"]]}
+
+
+def _case_from_json(j):
+    return {"bw": j["bw"], "paging": j["paging"], "ordering": j["ordering"],
+            "objs": [{"style": o["style"], "loc": o["loc"], "consts": o["consts"], "mems": [tuple(m) for m in o["mems"]],
+                      "regs": [Reg(r["kind"], r["size"], r["reset"], r["atomic"], r["wfd"]) for r in o["regs"]]}
+                     for o in j["objs"]]}
+
+
+def correspond_access(ctx, out, n_cases):
+    """`CSRFieldAggregate.__init__`: access-mode resolution of fields and `check_names` on real CSRStorage / CSRStatus
+    objects against `resolveAccess` / `checkNames`; property: every field of a status ends up ReadOnly, every field of a
+    storage ReadWrite or WriteOnly; a register never has two fields of one name."""
+    from litex.soc.interconnect import csr
+    rng = ctx.rng
+    A = csr.CSRAccess
+    cases, lines = [], []
+    for _ in range(n_cases):
+        parent = rng.choice(("storage", "status"))
+        fs = [(rng.choice((None, None, A.WriteOnly, A.ReadOnly, A.ReadWrite)), rng.random() < 0.3) for _ in range(rng.randint(1, 4))]
+        cases.append((parent, fs))
+        lines.append("access %d %s" % (2 if parent == "storage" else 1,
+                                       " ".join("%d %d" % (0 if a is None else int(a) + 1, int(p)) for a, p in fs)))
+    ans = ctx.lean.call_batch(lines)
+    ok = 0
+    for (parent, fs), a in zip(cases, ans):
+        fields = [csr.CSRField("f%d" % k, size=1, pulse=p, access=acc) for k, (acc, p) in enumerate(fs)]
+        try:
+            (csr.CSRStorage if parent == "storage" else csr.CSRStatus)(fields=fields, name="x")
+            real = "ok " + " ".join(str(int(f.access) + 1) for f in fields)
+            ok += 1
+            allowed = (A.ReadWrite, A.WriteOnly) if parent == "storage" else (A.ReadOnly,)
+            if any(f.access not in allowed for f in fields):
+                out.append({"kind": "monitor:%s accepted fields with access modes %r" % (parent, [str(f.access) for f in fields]),
+                            "instance": "CSRFieldAggregate access", "parent": parent, "fields": [[None if x is None else int(x), y] for x, y in fs]})
+        except AssertionError:
+            real = "rejected"
+        ctx.cov.count("access:" + real.split()[0])
+        if a.strip() != real.strip():
+            out.append({"kind": "correspondence", "instance": "CSRFieldAggregate access", "parent": parent,
+                        "fields": [[None if x is None else int(x), y] for x, y in fs], "real": real, "model": a})
+    ctx.cov.add_cases("CSRFieldAggregate access-mode resolution", len(cases), ok)
+    cases = [[rng.randrange(4) for _ in range(rng.randint(1, 5))] for _ in range(max(20, n_cases // 4))]
+    ans = ctx.lean.call_batch(["names " + " ".join(map(str, c)) for c in cases])
+    for c, a in zip(cases, ans):
+        try:
+            st = csr.CSRStorage(fields=[csr.CSRField("n%d" % x, size=1) for x in c], name="x")
+            real = "ok"
+            if len(set(c)) != len(c):
+                out.append({"kind": "monitor:a register with two fields of one name was accepted", "instance": "CSRFieldAggregate names",
+                            "names": c})
+        except ValueError:
+            real = "rejected"
+            if len(set(c)) == len(c):
+                out.append({"kind": "monitor:distinct field names rejected", "instance": "CSRFieldAggregate names", "names": c})
+        if a.strip() != real:
+            out.append({"kind": "correspondence", "instance": "CSRFieldAggregate names", "names": c, "real": real, "model": a})
+    ctx.cov.add_cases("CSRFieldAggregate.check_names", len(cases), len(cases))
+
+
+def correspond_members(ctx, out, n_cases):
+    """`AutoCSR.get_memories` / `get_constants` over nested modules (names prefixed once per enclosing child, creation order,
+    constants placed by `sort=True`), `CSRConstant` value/read, against `gatherOrder` / `gatherSorted`."""
+    from migen import Module, Memory
+    from litex.soc.interconnect import csr
+    rng = ctx.rng
+    done = 0
+    for _ in range(n_cases):
+        class M(Module, csr.AutoCSR):
+            pass
+        top, kid, grand = M(), M(), M()
+        pref = {id(top): "", id(kid): "kid_", id(grand): "kid_g_"}
+        mems, consts = [], []
+        L = rng.randint(1, 6)
+        for k in range(L):
+            where = rng.choice((top, kid, grand))
+            if rng.random() < 0.5:
+                m = Memory(8, 4, name="m%d" % (L - k))
+                setattr(where, "a%d" % (L - k), m)
+                mems.append((m, "m%d" % (L - k), where))
+            else:
+                fixed = rng.choice([None, None, rng.randint(0, L + 1)])
+                v = rng.randrange(1 << 20)
+                c = csr.CSRConstant(v, name="k%d" % (L - k), n=fixed)
+                setattr(where, "b%d" % (L - k), c)
+                consts.append((c, "k%d" % (L - k), where, fixed, v))
+        kid.g = grand
+        top.kid = kid
+        for rep in range(2):                       # the second call must not prefix again
+            gm = top.get_memories()
+            if [x for x in gm] != [m for (m, _, _) in mems] or [m.name_override for m in gm] != [pref[id(w)] + nm for (_, nm, w) in mems]:
+                out.append({"kind": "monitor:get_memories() call %d returns %r, expected %r in creation order" % (
+                    rep + 1, [m.name_override for m in gm], [pref[id(w)] + nm for (_, nm, w) in mems]), "instance": "AutoCSR get_memories"})
+                break
+        for (c, nm, w, fixed, v) in consts:
+            if c.constant != v or c.value.value != v:
+                out.append({"kind": "monitor:CSRConstant(%d) holds %r / %r" % (v, c.constant, c.value.value), "instance": "CSRConstant"})
+        fx = [f for (_, _, _, f, _) in consts]
+        try:
+            gc = top.get_constants(sort=True)
+            slots = [next((i for i, (c, _, _, _, _) in enumerate(consts) if c is x), None) for x in gc]
+            real = "ok " + " ".join(str(0 if i is None else i + 1) for i in slots)
+            msg = _sort_oracle(fx, slots)
+            if msg:
+                out.append({"kind": "monitor:" + msg, "instance": "AutoCSR get_constants(sort=True)", "fixed": fx})
+            for x in gc:
+                hit = next(((nm, w) for (c, nm, w, _, _) in consts if c is x), None)
+                if hit and x.name != pref[id(hit[1])] + hit[0]:
+                    out.append({"kind": "monitor:constant %r gathered as %r" % (pref[id(hit[1])] + hit[0], x.name),
+                                "instance": "AutoCSR get_constants(sort=True)"})
+        except ValueError:
+            real = "conflict"
+        except IndexError:
+            real = "indexerror"
+        if consts:
+            sh = list(range(len(consts)))
+            rng.shuffle(sh)
+            args = []
+            for i in sh:
+                args += [consts[i][0].duid, 0 if consts[i][3] is None else consts[i][3] + 1]
+            g = ctx.lean.call("gather", *args)
+            if g != "" and " ".join(g.split("|")[1].split()) != " ".join(real.split()):
+                out.append({"kind": "correspondence", "instance": "AutoCSR get_constants(sort=True)", "fixed": fx, "real": real, "model": g})
+        done += 1
+    ctx.cov.add_cases("AutoCSR get_memories / get_constants over nested modules, CSRConstant", done, done)
+
+
+def correspond_sim_helpers(ctx, out):
+    """The documented simulation helpers (`Interface.write/read`, `CSRStorage.write/read`, `CSRStatus.read`, `CSR.write/read`,
+    `CSRConstant.read`) on a real bank under the repository's own `run_simulation`: a bus write followed by a bus read
+    returns the value written, the helpers move the values they document."""
+    from litex.gen.sim import run_simulation
+    from litex.soc.interconnect import csr, csr_bus
+    for ordering in ("big", "little"):
+        st = csr.CSRStorage(16, reset=0xBEEF, name="st")
+        sta = csr.CSRStatus(8, name="sta")
+        raw = csr.CSR(4, name="raw")
+        k = csr.CSRConstant(0x2A, name="k")
+        bus = csr_bus.Interface(data_width=8, address_width=15)
+        bank = csr_bus.CSRBank([st, sta, raw], address=33, bus=bus, paging=0x800, ordering=ordering)
+        got = {}
+        base = 33 << 9
+        hi, lo = (base, base + 1) if ordering == "big" else (base + 1, base)
+
+        def rd(a):
+            # `Interface.read` samples dat_r right after the edge that presents the address: it returns the word of the
+            # PREVIOUS access (the repository's own test reads once more and shifts); so every word is read twice
+            yield from bus.read(a)
+            return (yield from bus.read(a))
+
+        def gen():
+            got["reset"] = ((yield from rd(hi)) << 8) | (yield from rd(lo))
+            yield from bus.write(hi, 0x12)
+            yield from bus.write(lo, 0x34)
+            yield
+            got["storage"] = (yield from st.read())
+            got["rb"] = ((yield from rd(hi)) << 8) | (yield from rd(lo))
+            got["other"] = (yield from rd(1 << 9))
+            yield sta.status.eq(0x5C)
+            yield
+            got["status"] = (yield from rd(base + 2))
+            yield from st.write(0x4321)
+            got["st.write"] = (yield st.storage)
+            got["const"] = (yield from k.read())
+        run_simulation(bank, gen())
+        exp = {"reset": 0xBEEF, "storage": 0x1234, "rb": 0x1234, "other": 0, "status": 0x5C, "st.write": 0x4321, "const": 0x2A}
+        if got != exp:
+            out.append({"kind": "monitor:simulation helpers on a bank at location 33 (15-bit addresses, ordering %s) observed %r, expected %r"
+                                % (ordering, got, exp), "instance": "csr simulation helpers", "ordering": ordering})
+    ctx.cov.add_cases("directed: Interface.write/read and CSR helper generators under run_simulation", 2, 2, exhaustive=True)
+
+
 def run_corpus(ctx):
     """Minimised past disagreements and finding witnesses: model and code must agree (and match the recorded
     outputs) on each of them."""
@@ -542,6 +953,11 @@ def correspond(ctx):
                           "what": "exhaustive co-exploration did not complete (%s states, %s transitions)" % (i.get("states"), i.get("transitions"))})
     quick = ctx.tier == "quick"
     correspond_directed(ctx, extra)
+    correspond_glue(ctx, extra)
+    correspond_scan(ctx, extra, 60 if quick else 600)
+    correspond_access(ctx, extra, 200 if quick else 2000)
+    correspond_members(ctx, extra, 40 if quick else 400)
+    correspond_sim_helpers(ctx, extra)
     correspond_sort(ctx, extra, 200 if quick else 3000)
     correspond_gather(ctx, extra, 40 if quick else 400)
     correspond_fields(ctx, extra, 300 if quick else 3000)
@@ -618,11 +1034,35 @@ def correspond_gather(ctx, out, n_cases):
             res = top.get_csrs(sort=True)
             real = "ok " + " ".join(str(next((i + 1 for i, (o, _, _) in enumerate(created) if o is x), 0)) for x in res)
             pref = {id(top): "", id(kid): "kid_", id(grand): "kid_g_"}
+            own = {id(o): nm for (o, _, _), nm in zip(created, [n_ for n_ in names[:L] if n_ not in excluded])}
             for x in res:
                 hit = next(((o, w) for (o, _, w) in created if o is x), None)
-                if hit and not x.name.startswith(pref[id(hit[1])]):
-                    out.append({"kind": "monitor:register %r of a child module lacks its prefix %r" % (x.name, pref[id(hit[1])]),
+                if hit and x.name != pref[id(hit[1])] + own[id(x)]:
+                    out.append({"kind": "monitor:register declared as %r in a module reached through %r is gathered as %r, expected %r"
+                                        % (own[id(x)], pref[id(hit[1])], x.name, pref[id(hit[1])] + own[id(x)]),
                                 "instance": "AutoCSR nested get_csrs"})
+            # a second call must return the same registers under the same names (every prefix is applied exactly once)
+            res2 = top.get_csrs(sort=True)
+            n1 = [x.name for x in res if any(o is x for (o, _, _) in created)]
+            n2 = [x.name for x in res2 if any(o is x for (o, _, _) in created)]
+            if n1 != n2:
+                out.append({"kind": "monitor:second get_csrs(sort=True) returns names %r, the first returned %r" % (n2, n1),
+                            "instance": "AutoCSR nested get_csrs"})
+            # model tie of the creation (DUID) order: the items are handed to the model in a shuffled order
+            plain = top.get_csrs()
+            sh = list(range(len(created)))
+            rng.shuffle(sh)
+            args = []
+            for i in sh:
+                args += [created[i][0].duid, 0 if created[i][1] is None else created[i][1] + 1]
+            g = ctx.lean.call("gather", *args) if created else ""
+            exp_order = " ".join(str(sh.index(next(i for i, (o, _, _) in enumerate(created) if o is x))) for x in plain)
+            if created and g != "" and " ".join(g.split("|")[0].split()) != exp_order:
+                out.append({"kind": "correspondence", "instance": "AutoCSR nested get_csrs() order", "duids": args[0::2],
+                            "real": exp_order, "model": g})
+            if created and g != "" and " ".join(g.split("|")[1].split()) != " ".join(real.split()):
+                out.append({"kind": "correspondence", "instance": "AutoCSR nested get_csrs(sort=True) via gather", "fixed": fx,
+                            "real": real, "model": g})
             if len({x.name for x in res}) != len(res):
                 out.append({"kind": "monitor:two gathered registers share the name", "instance": "AutoCSR nested get_csrs",
                             "names": [x.name for x in res]})
@@ -719,6 +1159,11 @@ def search(ctx, disagreements, proof_info):
     try:
         ctx.lean = _NoLean()
         correspond_directed(ctx, extra)
+        correspond_glue(ctx, extra)
+        correspond_scan(ctx, extra, 300)
+        correspond_access(ctx, extra, 500)
+        correspond_members(ctx, extra, 200)
+        correspond_sim_helpers(ctx, extra)
         correspond_sort(ctx, extra, 2000)
         correspond_gather(ctx, extra, 300)
         correspond_fields(ctx, extra, 2000)
@@ -754,6 +1199,32 @@ def replay(ctx, payload):
         print("fields=%r -> %s" % (inp["fields"], real))
         if msg:
             print(msg)
+            print("VIOLATION property=%s replay=(replayed)" % ctx.prop)
+            return 1
+        return 0
+    if fi.get("instance") == "CSRBankArray.scan":
+        real, msg = _real_scan(_case_from_json(inp["case"]))
+        print("scan -> %s" % real)
+        if msg:
+            print(msg)
+            print("VIOLATION property=%s replay=(replayed)" % ctx.prop)
+            return 1
+        return 0
+    if fi.get("instance") in ("csr_bus.Interface.like", "SoCCSRHandler.n_locs"):
+        extra = []
+
+        class _NoLean:
+            def call_batch(self, lines):
+                return [""] * len(lines)
+        saved, ctx.lean = ctx.lean, _NoLean()
+        try:
+            correspond_glue(ctx, extra)
+        finally:
+            ctx.lean = saved
+        hits = [d for d in extra if d["kind"].startswith("monitor:")]
+        for d in hits[:3]:
+            print(d["kind"][8:])
+        if hits:
             print("VIOLATION property=%s replay=(replayed)" % ctx.prop)
             return 1
         return 0
